@@ -122,8 +122,10 @@ type ghost struct {
 // pending callback}.
 func Check_Schedule() {
 	nkeys, k := 2, 5
-	if sx.Tier() > 0 {
-		nkeys, k = 2, 6
+	if sx.Tier() > 0 && sx.Choose("family", 2) == 1 {
+		// thorough: besides depth 5 on two keys, depth 7 on one key (depth 6 on two
+		// keys is 0.74 M schedules and 10 minutes on its own)
+		nkeys, k = 1, 7
 	}
 	nkeys = sx.Param("keys", nkeys)
 	k = sx.Param("k", k)
